@@ -7,6 +7,7 @@ pub mod outcome;
 pub mod spec;
 pub mod un;
 pub mod value;
+pub mod wild;
 
 #[cfg(feature = "engine")]
 pub mod engine;
